@@ -19,6 +19,9 @@ func c06grid() []uint64 {
 	return g
 }
 
+var c06kept []primitives.MemberWeight
+var c06keptOf []uint64
+
 func c06check(r *Rec, w []uint64) {
 	n := len(w)
 	sum := new(big.Int)
@@ -36,6 +39,7 @@ func c06check(r *Rec, w []uint64) {
 		weights[i] = primitives.MemberWeight(x)
 	}
 	cs := map[string]interface{}{"weights": fmt.Sprint(w)}
+
 	// reference
 	var f, q uint64
 	if W == 0 {
@@ -96,6 +100,17 @@ func c06check(r *Rec, w []uint64) {
 			r.Bad("C06:noise-adds-weight", fmt.Sprintf("weights %v subset %b: duplicates/outsider/empty id changed the verdict (%v/%v w=%d vs %v/%v w=%d)", w, s, nq, nh, nw, isQ[s], hasH[s], wt[s]), cs)
 		}
 	}
+	// history independence: what an earlier call returned must not change when another committee is evaluated
+	// (the committees of two heights are evaluated side by side by ValidateBlockConsensus and the worker)
+	if c06kept != nil && len(c06kept) == len(c06keptOf) {
+		for i := range c06kept {
+			if uint64(c06kept[i]) != c06keptOf[i] {
+				r.Bad("C06:result-aliased", fmt.Sprintf("the weights returned for committee %v read %v after committee %v was evaluated", c06keptOf, c06kept, w), map[string]interface{}{"weights": fmt.Sprint(c06keptOf), "then": fmt.Sprint(w)})
+				break
+			}
+		}
+	}
+	c06kept, c06keptOf = quorum.GetWeights(members), append([]uint64{}, w...)
 	full := N - 1
 	for a := 0; a < N; a++ {
 		// complement of any <= f subset is a quorum (attainability)
